@@ -655,6 +655,137 @@ func gatedTimeoutThenSendToOther() []int64 {
 	return []int64{0, int64(nA), int64(nC), int64(len(cancelled))}
 }
 
+// scenario 19 (C01; finding F5): while the callback routine is busy with an earlier callback, the reply to request 2
+// and then the error reply to request 3 are concluded.  Each must reach its own callback.
+func gatedConclusionOrder() []int64 {
+	installIDGen()
+	wrong := int64(0)
+	for try := 0; try < 12; try++ {
+		fake := fakews.NewClient()
+		disp := ocppj.NewDefaultClientDispatcher(ocppj.NewFIFOClientQueue(0))
+		disp.SetTimeout(time.Hour)
+		cp := ocpp16.NewChargePoint("cp1", ocppj.NewClient("cp1", fake, disp, nil, core16.Profile), fake)
+		if err := cp.Start("ws://fake"); err != nil {
+			return []int64{-2}
+		}
+		entered := make(chan struct{}, 2)
+		release := make(chan struct{})
+		var mu sync.Mutex
+		got := map[int]string{}
+		rec := func(n int) func(ocpp.Response, error) {
+			return func(r ocpp.Response, e error) {
+				v := "?"
+				if e != nil {
+					v = "err"
+				} else if dt, ok := r.(*core16.DataTransferConfirmation); ok && dt != nil {
+					v = fmt.Sprint(dt.Data)
+				}
+				mu.Lock()
+				got[n] = v
+				mu.Unlock()
+			}
+		}
+		setNextID("71")
+		_ = cp.SendRequestAsync(core16.NewDataTransferRequest("v1"), func(r ocpp.Response, e error) {
+			entered <- struct{}{}
+			<-release
+		})
+		setNextID("72")
+		_ = cp.SendRequestAsync(core16.NewDataTransferRequest("v2"), rec(2))
+		setNextID("73")
+		_ = cp.SendRequestAsync(core16.NewDataTransferRequest("v3"), rec(3))
+		if !waitFor(3*time.Second, clientWrote(fake, 71)) {
+			return []int64{-8}
+		}
+		_ = fake.Inject([]byte(`[3,"71",{"status":"Accepted","data":"r71"}]`))
+		select {
+		case <-entered:
+		case <-time.After(2 * time.Second):
+			return []int64{-4}
+		}
+		if !waitFor(3*time.Second, clientWrote(fake, 72)) {
+			return []int64{-8}
+		}
+		if !within(2*time.Second, func() { _ = fake.Inject([]byte(`[3,"72",{"status":"Accepted","data":"r72"}]`)) }) {
+			return []int64{-5}
+		}
+		if !waitFor(3*time.Second, clientWrote(fake, 73)) {
+			return []int64{-8}
+		}
+		if !within(2*time.Second, func() { _ = fake.Inject([]byte(`[4,"73","NotSupported","no",{}]`)) }) {
+			return []int64{-5}
+		}
+		time.Sleep(5 * time.Millisecond)
+		close(release)
+		waitFor(2*time.Second, func() bool { mu.Lock(); defer mu.Unlock(); return len(got) == 2 })
+		within(2*time.Second, cp.Stop)
+		mu.Lock()
+		if !(got[2] == "r72" && got[3] == "err") {
+			wrong++
+		}
+		mu.Unlock()
+	}
+	if wrong == 0 {
+		return []int64{1, 0}
+	}
+	return []int64{0, wrong}
+}
+
+// scenario 20 (C07; finding F18): the requests of 8 clients time out at the same moment.  Every one of them must be
+// cancelled, and the dispatcher must still serve a request sent afterwards.
+func gatedSimultaneousTimeouts() []int64 {
+	installIDGen()
+	fake := fakews.NewServer()
+	disp := ocppj.NewDefaultServerDispatcher(ocppj.NewFIFOQueueMap(0))
+	disp.SetTimeout(150 * time.Millisecond)
+	srv := ocppj.NewServer(fake, disp, nil, core16.Profile)
+	srv.SetResponseHandler(func(c ws_Channel, r ocpp.Response, id string) {})
+	srv.SetErrorHandler(func(c ws_Channel, e *ocpp.Error, d interface{}) {})
+	srv.SetRequestHandler(func(c ws_Channel, r ocpp.Request, id, action string) {})
+	var mu sync.Mutex
+	cancelled := 0
+	srv.SetCanceledRequestHandler(func(clientID string, requestID string, r ocpp.Request, e *ocpp.Error) {
+		mu.Lock()
+		cancelled++
+		mu.Unlock()
+	})
+	go srv.Start(0, "/{ws}")
+	if !waitFor(2*time.Second, disp.IsRunning) {
+		return []int64{-2}
+	}
+	const n = 8
+	// hold the pump inside the first write until all requests are queued, so that all are written (and time out) together
+	gate := make(chan struct{})
+	var once sync.Once
+	fake.OnWrite = func(to string, data []byte) { once.Do(func() { <-gate }) }
+	for i := 0; i < n; i++ {
+		fake.Connect(fmt.Sprintf("c%d", i))
+	}
+	for i := 0; i < n; i++ {
+		if err := srv.SendRequest(fmt.Sprintf("c%d", i), core16.NewDataTransferRequest("v")); err != nil {
+			close(gate)
+			return []int64{-3}
+		}
+	}
+	close(gate)
+	ok := waitFor(3*time.Second, func() bool { mu.Lock(); defer mu.Unlock(); return cancelled == n })
+	mu.Lock()
+	c := cancelled
+	mu.Unlock()
+	// afterwards the dispatcher still works
+	fake.TakeWritten()
+	served := int64(0)
+	if within(2*time.Second, func() { _ = srv.SendRequest("c0", core16.NewDataTransferRequest("after")) }) &&
+		waitFor(2*time.Second, func() bool { return fake.CountWritten(func(string, []byte) bool { return true }) >= 1 }) {
+		served = 1
+	}
+	within(3*time.Second, srv.Stop)
+	if ok && served == 1 {
+		return []int64{1, int64(c)}
+	}
+	return []int64{0, int64(c), served}
+}
+
 func gatedEval(in []int64) []int64 {
 	switch in[0] {
 	case 7:
@@ -675,6 +806,10 @@ func gatedEval(in []int64) []int64 {
 		return gatedSendFromDisconnectHandler()
 	case 16:
 		return gatedTimeoutThenSendToOther()
+	case 19:
+		return gatedConclusionOrder()
+	case 20:
+		return gatedSimultaneousTimeouts()
 	}
 	return []int64{-1}
 }
